@@ -70,6 +70,7 @@ shape!(sr_2_anypad, 340, |s, v| shapes::sr::<S, _, 2>(s, v, 252));
 shape!(rr_2, 80, |s, v| shapes::rr::<S, _, 2>(s, v, 12));
 shape!(bye_0, 48, |s, v| shapes::bye::<S, _, 0, 24>(s, v, 12));
 shape!(bye_2, 56, |s, v| shapes::bye::<S, _, 2, 24>(s, v, 12));
+shape!(bye_utf8, 44, |s, v| shapes::bye_utf8::<S, _, 1, 12>(s, v, 8));
 shape!(bye_long, 160, |s, v| shapes::bye_long::<S, _, 1, 128>(s, v, 12));
 shape!(bye_anypad, 280, |s, v| shapes::bye::<S, _, 1, 8>(s, v, 252));
 shape!(bye_255, 288, |s, v| shapes::bye_fixed::<S, _, 1, 255, 256>(s, v, 8));
@@ -165,6 +166,7 @@ common::register! {
     q_rr_2 = rr_2 => 3,
     q_bye_0 = bye_0 => 2,
     q_bye_2 = bye_2 => 3,
+    q_bye_utf8 = bye_utf8 => 2,
     q_bye_255 = bye_255 => 2,
     q_bye_256 = bye_256 => 2,
     q_app = app => 2,
